@@ -109,6 +109,10 @@ Definition get_consumer_partition (cf : config) (g : cgroup) (t p cnt : Z) : lis
 Definition too_old (cf : config) (now ts : Z) : bool := ts <? mul64 (sub64 now (cf_expire cf)) 1000.
 Definition expired (cf : config) (now last : Z) : bool := last <? mul64 (sub64 now (cf_expire cf)) 1000.
 
+(* findConsumerOffsetDestination returned a destination (the commit is stored somewhere in the ring) *)
+Definition commit_stored (w : ring) (order : Z) : bool :=
+  match find_place w order with PDrop => false | _ => true end.
+
 Definition commit_lag (broker_off off : Z) : Z := if off <? broker_off then u64 (sub64 broker_off off) else 0.
 
 Definition add_consumer_offset (cf : config) (now : Z) (st : state) (c g t p off order ts : Z) : outcome :=
@@ -128,7 +132,7 @@ Definition add_consumer_offset (cf : config) (now : Z) (st : state) (c g t p off
           let w := match pr_ring pr with Some w => w | None => [] end in
           let '(w', appended) := ring_step (cf_min_distance cf) w (mkCommit off order ts) (commit_lag boff off) in
           let parts' := set_nth parts i (mkCpartition (Some w') (pr_owner pr) (pr_client pr)) in
-          let grp' := mkCgroup (set (g_topics grp) t parts') (if appended then ts else g_last grp) in
+          let grp' := mkCgroup (set (g_topics grp) t parts') (if commit_stored w order then Z.max ts (g_last grp) else g_last grp) in
           Done (set st c (mkCluster (cl_broker cl) (set (cl_consumer cl) g grp'))) RNone
   end.
 
@@ -184,7 +188,12 @@ Definition delete_group (st : state) (c g t : Z) : outcome :=
           else
             let tops := remove (g_topics grp) t in
             match tops with
-            | [] => Done (set st c (mkCluster (cl_broker cl) (remove (cl_consumer cl) g))) RNone
+            | [] =>
+                (* the group goes with its last topic - but only if the named topic was one of its topics *)
+                match get (g_topics grp) t with
+                | Some _ => Done (set st c (mkCluster (cl_broker cl) (remove (cl_consumer cl) g))) RNone
+                | None => Done (set st c (mkCluster (cl_broker cl) (set (cl_consumer cl) g (mkCgroup tops (g_last grp))))) RNone
+                end
             | _ => Done (set st c (mkCluster (cl_broker cl) (set (cl_consumer cl) g (mkCgroup tops (g_last grp))))) RNone
             end
       | None => Done st RNone
